@@ -186,6 +186,33 @@ def run_cfg(ctx, p, cfg):
         okm = bool(mods) and all(any(x[0] == "call" and x[1] == "std::fs::metadata" for x in walk(c.arg(0))) or g.path != RUN_ONCE for g, c in mods)
         r.require(okm, "timestamp-of-that-lookup", fn=(mods[0][0] if mods else None), detail="modified() is taken from the metadata just looked up")
 
+    with ctx.rule("A8", "the text compared against is the text last read", cfg) as r:
+        # "unchanged" is decided by comparing the file's text with the remembered one: the remembered text has to be replaced by
+        # what was just read whenever a new configuration is applied, or a later edit back to an older text is taken for "no change"
+        f = p.fn(RUN_ONCE)
+        rd = f.call1("config::file::read_config")
+        sc = f.call1("Handle::set_config") if f.calls("Handle::set_config") else None
+        if sc is None:
+            raise ShapeUnrecognised("no Handle::set_config call in the reloader's poll step")
+        is_read = lambda e: any(x[0] == "call" and len(x) > 3 and x[3] == rd.block and x[1] == "config::file::read_config" for x in walk(e))
+        fld = None
+        for c in f.calls():
+            if (c.callee or "").rsplit("::", 1)[-1] in ("eq", "ne") and len(c.args) == 2:
+                a0, a1 = deep_strip(c.arg(0)), deep_strip(c.arg(1))
+                for x, y in ((a0, a1), (a1, a0)):
+                    for ya in (y[1] if y[0] == "phi" else (y,)):
+                        ya = deep_strip(ya)
+                        if is_read(x) and x[0] != "phi" and ya[0] == "field" and deep_strip(ya[1]) in (("param", 1), ("deref", ("param", 1))):
+                            fld = ya[2]
+        r.require(fld is not None, "text-compared-with-the-remembered-one", fn=f, detail="the text read is compared with self.%s" % fld)
+        if fld is not None:
+            sts = [(b, i, st) for b, i, st in f.assigns() if st["lhs"]["l"] == 1 and any(isinstance(e_, dict) and e_.get("f") == fld for e_ in st["lhs"]["p"])]
+            good = [(b, i, st) for b, i, st in sts if is_read(f._rvalue(st["rv"], frozenset(), 30, b))]
+            r.require(bool(good) and len(good) == len(sts), "remembered-text-is-what-was-read", fn=f, detail="assignments to self.%s: %d, all from the text just read" % (fld, len(sts)),
+                      fail_detail="self.%s is %s: the comparison that detects a changed file runs against a stale text" % (fld, "never updated from the text read" if not good else "also assigned from something else"))
+            r.require(any(f.dominates(b, sc.block) for b, i, st in good), "remembered-before-the-config-is-applied", fn=f, site=sc.at,
+                      detail="every path that installs a configuration has replaced the remembered text first")
+
     with ctx.rule("A5", "reloader control flow", cfg) as r:
         f = p.fn(RUN)
         ro_ = f.call1(RUN_ONCE, "run_once")
